@@ -423,7 +423,9 @@ func (w *W) RtmpPlayer(app, stream string) (*RtmpPeer, error) {
 func (p *RtmpPeer) Accepted() bool { return !p.Conn.Closed() && !p.Conn.Done() }
 
 // NewHijackWriter is an http.ResponseWriter + Hijacker over an in-memory connection.
-func NewHijackWriter(c *netsim.Conn) http.ResponseWriter { return &hijackWriter{c: c, hdr: http.Header{}} }
+func NewHijackWriter(c *netsim.Conn) http.ResponseWriter {
+	return &hijackWriter{c: c, hdr: http.Header{}}
+}
 
 // ---- HTTP subscribers ------------------------------------------------------------------------------------
 
